@@ -80,6 +80,8 @@ enum Act {
     Unsolicited,
     /// more than the orphan age threshold (1 s) of virtual time passes after a caller was dropped with its response owed
     AdvanceSecond,
+    /// 61 s of virtual time pass (the orphaner's 1 s ticks run) while an abandoned request is still unanswered
+    AdvanceMinute,
 }
 
 #[derive(Default, Debug)]
@@ -133,6 +135,7 @@ async fn drive(cfg: &Cfg, ch: &mut Chooser, w: &mut World, run: &mut Run) -> Res
     let mut advances = 0;
     let mut unsolicited_sent = 0u8;
     let mut second_advanced = false;
+    let mut minute_advanced = false;
     loop {
         steps += 1;
         if steps > 400 {
@@ -206,8 +209,13 @@ async fn drive(cfg: &Cfg, ch: &mut Chooser, w: &mut World, run: &mut Run) -> Res
         if cfg.events && partial.is_none() && unsolicited_sent < 2 && (next_start > 0) {
             alts.push((Act::Unsolicited, env(1)));
         }
-        if cfg.prefill > 0 && !second_advanced && w.callers.iter().any(|c| c.cancelled_while_owed && !c.answered_fully) {
+        let abandoned_and_owed = w.callers.iter().any(|c| c.cancelled_while_owed && !c.answered_fully);
+        // the 1 s tick in the gap of a half-delivered response, or an orphan growing old
+        if !second_advanced && (abandoned_and_owed || partial.is_some()) && cfg.big == 0 {
             alts.push((Act::AdvanceSecond, env(1)));
+        }
+        if !minute_advanced && abandoned_and_owed && cfg.prefill == 0 && cfg.big == 0 {
+            alts.push((Act::AdvanceMinute, env(1)));
         }
         let has_free = alts.iter().any(|(_, c)| *c == 0);
         if !has_free {
@@ -285,6 +293,12 @@ async fn drive(cfg: &Cfg, ch: &mut Chooser, w: &mut World, run: &mut Run) -> Res
                 run.old_orphan = true;
                 vasync::advance(hook::orphan_limits().1 + Duration::from_millis(100)).await;
                 w.log("time +1.1s (the abandoned request's stream id is now an old orphan)".into());
+            }
+            Act::AdvanceMinute => {
+                minute_advanced = true;
+                run.old_orphan = true;
+                vasync::advance(Duration::from_secs(61)).await;
+                w.log("time +61s (the abandoned request has been unanswered for over a minute)".into());
             }
             Act::Unsolicited => {
                 let f = if unsolicited_sent == 0 { event_frame(9) } else { Frame::response(-2, OP_RESULT, b"nobody") };
@@ -467,7 +481,13 @@ fn main() {
                         r_ref.counters.add("violations_depending_on_unowned_randomness", 1);
                         verdict = Err(format!("{what} (violates in {violating_runs} of {runs} runs of this choice sequence: the outcome depends on randomness inside the driver, e.g. hash order; replay may need several attempts)"));
                     }
-                    Audit::Diverged(d) => divergences.lock().unwrap().push(format!("{d}; cfg {cfg:?} choices {choices:?}")),
+                    Audit::Diverged(d) => {
+                        divergences.lock().unwrap().push(format!("{d}; cfg {cfg:?} choices {choices:?}"));
+                        // a violation that never shows again is not reported as one (it counts as a divergence only)
+                        if verdict.is_err() {
+                            verdict = Ok(());
+                        }
+                    }
                 }
                 r_ref.traces_validated.fetch_add(1, Ordering::Relaxed);
             }
@@ -497,8 +517,17 @@ fn main() {
         }
     }
     let div = divergences.into_inner().unwrap();
+    // Verdict policy: replays that disagree (two passing runs with different traces, or a violation that never shows again)
+    // mean the outcome depends on randomness the harness does not own (tokio's select! start branch, hash order). If at the
+    // same time a violation WAS reproduced, that is a real execution of the real code: report it (exit 1) and mention the
+    // RNG dependence. Without any reproduced violation the divergences are a machinery error (exit 2), never a verdict.
     if !div.is_empty() {
-        vcore::machinery_error(&format!("determinism audit failed ({} divergences), first: {}", div.len(), div[0]));
+        r.counters.add("replay_divergences(outcome depends on unowned randomness)", div.len() as u64);
+        r.note("replay_divergence_samples", json!(div.iter().take(3).collect::<Vec<_>>()));
+        if r.violation_count() == 0 {
+            vcore::machinery_error(&format!("determinism audit failed ({} divergences) and no violation was reproduced, first: {}", div.len(), div[0]));
+        }
+        println!("NOTE: {} replayed executions diverged (the schedule depends on randomness inside the driver, e.g. tokio's select! start branch); the violations below were each reproduced at least once", div.len());
     }
     let sigs = signatures.into_inner().unwrap();
     r.counters.add("distinct_outcome_signatures", sigs.len() as u64);
@@ -508,7 +537,7 @@ fn main() {
     if sigs.len() < 2 && r.violation_count() == 0 {
         vcore::machinery_error("vacuous: fewer than 2 distinct outcome signatures");
     }
-    r.set_rule("E-ASYNC/E-DFS on the real Connection::router with real send_request callers over a scripted stream. Per configuration (n callers x write coalescing off/yield/1ms x short reads x submit-channel capacity x pre-filled id space x a 32767..100000-byte response body for caller 0) every choice sequence within the deviation bound is executed; free choices: which woken task is lowest (default), start next caller / answer any held request whole at a quiescent point (so all response orders and all submission-response interleavings are covered at bound 0); 1 deviation each: poll another woken task, any environment action while a task is woken, split a response (after every header byte 1..8 / after the header / inside the body), interleave an EVENT or a negative-stream frame (control-connection configurations), drop a caller's future, let 1.1 s of virtual time pass after an abandonment (pre-filled configurations). evaluations = executions (also reported as transitions). distinct_nontrivial = executions in which a caller was dropped while the peer owed its response and the peer answered that stream afterwards (cancellation notice and response in flight for the same stream). traces_validated_against_impl = executions replayed a second time with the full observation trace compared (determinism audit of select!-branch randomness), plus every violation.");
+    r.set_rule("E-ASYNC/E-DFS on the real Connection::router with real send_request callers over a scripted stream. Per configuration (n callers x write coalescing off/yield/1ms x short reads x submit-channel capacity x pre-filled id space x a 32767..100000-byte response body for caller 0) every choice sequence within the deviation bound is executed; free choices: which woken task is lowest (default), start next caller / answer any held request whole at a quiescent point (so all response orders and all submission-response interleavings are covered at bound 0); 1 deviation each: poll another woken task, any environment action while a task is woken, split a response (after every header byte 1..8 / after the header / inside the body), interleave an EVENT or a negative-stream frame (control-connection configurations), drop a caller's future, let 1.1 s of virtual time pass after an abandonment or in the gap of a half-delivered response, let 61 s pass after an abandonment (the orphaner's ticks run). evaluations = executions (also reported as transitions). distinct_nontrivial = executions in which a caller was dropped while the peer owed its response and the peer answered that stream afterwards (cancellation notice and response in flight for the same stream). traces_validated_against_impl = executions replayed a second time with the full observation trace compared (determinism audit of select!-branch randomness), plus every violation.");
     r.assume("the default schedule polls the lowest woken task id (router first); every other order costs deviations, so coverage is 'all schedules within the bound', not all schedules");
     r.finish();
 }
